@@ -29,6 +29,7 @@ def Kind.childMode : Kind → AMode → AMode
 def Kind.childEnv : Kind → Env → Env
   | .action f _, env => { env with fam := f }
   | .state _ _, env => { env with sd := env.sd + 1 }
+  | .control k _, env => { env with ctl := k }
   | _, env => env
 
 section
@@ -253,7 +254,8 @@ theorem rematchAll_rawX (a : AMode) (env : Env) (S : List Nat) (hrec : QRecX Q r
     calls with actions enabled. -/
 theorem body_rawX (cx : Ctx) (k : Nat) (kind : Kind) (a : AMode) (m : RMode) (env : Env)
     (hrec : QRecX Q rec (kind.childMode a) (kind.childEnv env) kind.calls)
-    (hraise : ∀ j, (kind = .must j ∨ kind = .raise j) → ∀ c, Q [Ev.raise j c]) (st : St) (r : Ret)
+    (hraise : ∀ j, (kind = .must j ∨ kind = .raise j) → ∀ c, Q [Ev.raise j c])
+    (hract : a = .action → ∀ (acts : List RuleAct) (b e : Cursor), Q (runActs cx env.sd b e acts).2) (st : St) (r : Ret)
     (h : body cx rec k kind a m env st = some r) : Q r.raw := by
   cases kind with
   | atom atm => simp only [body, Option.some.injEq] at h; subst h; exact hQ.nil
@@ -436,6 +438,28 @@ theorem body_rawX (cx : Ctx) (k : Nat) (kind : Kind) (a : AMode) (m : RMode) (en
     split
     · exact hQ.scope _ _ (Or.inr ⟨_, _, rfl⟩) q
     · exact hQ.scope _ _ (Or.inl rfl) q
+  | ifApply c acts =>
+    simp only [body] at h
+    split at h
+    · rename_i hc
+      simp only [Option.map_eq_some_iff] at h
+      obtain ⟨r0, h0, rfl⟩ := h
+      have h0' : rec c a .optional env st = some r0 := by rw [hc.1]; exact h0
+      have q := hrec _ (by simp [Kind.calls]) _ _ _ h0'
+      split
+      · simp only [dropOnFail_raw, guardRestore_raw]
+        exact hQ.app q (hract hc.1 _ _ _)
+      · simpa using q
+    · exact hrec _ (by simp [Kind.calls]) _ _ _ h
+  | control kc c => simp only [body] at h; exact hrec _ (by simp [Kind.calls]) _ _ _ h
+  | applyR acts =>
+    simp only [body] at h
+    split at h
+    · rename_i hc
+      simp only [Option.some.injEq] at h; subst h
+      simpa using hract hc.1 acts st.cur st.cur
+    · simp only [Option.some.injEq] at h; subst h
+      exact hQ.nil
 
 
 
